@@ -5,23 +5,33 @@
 
 use crate::common::*;
 use crate::mats::{RefGraph, Small};
-use ldpc_toolbox::sparse::Node;
+use ldpc_toolbox::sparse::{Node, SparseMatrix};
 use serde_json::{json, Value};
 
 const BOUNDS: [usize; 14] = [0, 1, 2, 3, 4, 5, 6, 7, 8, 9, 10, 12, 16, usize::MAX];
 
 pub fn check_graph(m: &Small, origin: &str, acc: &mut Acc) {
-    acc.evals += 1;
     let key = format!("girth:{}x{}:{}", m.r, m.n, m.alist_like());
     let replay = json!({"kind": "graph", "n": m.n, "rows": m.rows, "origin": origin});
     let g = RefGraph::from_small(m);
-    let h = m.sparse();
+    let h = m.sparse_var();
+    check_graph_h(key, replay, &g, &h, &BOUNDS, &m.alist_like(), acc)
+}
+
+/// The oracle proper: `g` is the reference graph of `h`.
+fn check_graph_h(key: String, replay: Value, g: &RefGraph, h: &SparseMatrix, bounds: &[usize], label: &str, acc: &mut Acc) {
+    acc.evals += 1;
+    struct Dims {
+        r: usize,
+        n: usize,
+    }
+    let m = Dims { r: h.num_rows(), n: h.num_cols() };
     let ref_girth = g.girth();
     if ref_girth.is_some() {
         acc.nontrivial += 1;
     }
     // global girth
-    match guard(|| (h.girth(), BOUNDS.iter().map(|&b| h.girth_with_max(b)).collect::<Vec<_>>())) {
+    match guard(|| (h.girth(), bounds.iter().map(|&b| h.girth_with_max(b)).collect::<Vec<_>>())) {
         Err(e) => {
             acc.violate(key, format!("girth panicked: {}", e), replay);
             return;
@@ -31,7 +41,7 @@ pub fn check_graph(m: &Small, origin: &str, acc: &mut Acc) {
                 acc.violate(key, format!("girth() = {:?}, shortest cycle = {:?}", gg, ref_girth), replay);
                 return;
             }
-            for (&b, got) in BOUNDS.iter().zip(bounded) {
+            for (&b, got) in bounds.iter().zip(bounded) {
                 let want = ref_girth.filter(|&x| x <= b);
                 if got != want {
                     acc.violate(key, format!("girth_with_max({}) = {:?}, expected {:?}", b, got, want), replay);
@@ -49,7 +59,7 @@ pub fn check_graph(m: &Small, origin: &str, acc: &mut Acc) {
             (
                 h.bfs(node),
                 h.girth_at_node(node),
-                BOUNDS.iter().map(|&b| h.girth_at_node_with_max(node, b)).collect::<Vec<_>>(),
+                bounds.iter().map(|&b| h.girth_at_node_with_max(node, b)).collect::<Vec<_>>(),
             )
         });
         match res {
@@ -68,7 +78,7 @@ pub fn check_graph(m: &Small, origin: &str, acc: &mut Acc) {
                     acc.violate(key, format!("girth_at_node({:?}) = {:?}, shortest cycle through the node = {:?}", node, local, want_local), replay);
                     return;
                 }
-                for (&b, got) in BOUNDS.iter().zip(bounded) {
+                for (&b, got) in bounds.iter().zip(bounded) {
                     let want = want_local.filter(|&x| x <= b);
                     if got != want {
                         acc.violate(key, format!("girth_at_node_with_max({:?}, {}) = {:?}, expected {:?}", node, b, got, want), replay);
@@ -93,7 +103,7 @@ pub fn check_graph(m: &Small, origin: &str, acc: &mut Acc) {
         acc.count("forests");
     }
     if acc.evals % 1777 == 11 {
-        acc.sample(|| json!({"H": m.alist_like(), "girth": ref_girth}));
+        acc.sample(|| json!({"H": label, "girth": ref_girth}));
     }
 }
 
@@ -160,7 +170,80 @@ fn complete_minus_matching(r: usize, n: usize) -> Small {
     Small { r, n, rows }
 }
 
+/// Graphs beyond 64 columns (long cycles and paths, hubs of degree 100, several components),
+/// built directly as sparse matrices in a scrambled edge order. Returned with their names.
+fn large_graphs(thorough: bool) -> Vec<(String, SparseMatrix)> {
+    let mut out = Vec::new();
+    let build = |r: usize, n: usize, mut edges: Vec<(usize, usize)>, salt: usize| -> SparseMatrix {
+        // deterministic scramble of the insertion order
+        let len = edges.len().max(1);
+        let step = (7 + salt..).find(|s| gcd(*s, len) == 1).unwrap();
+        let mut h = SparseMatrix::new(r, n);
+        for k in 0..edges.len() {
+            let (i, j) = edges[(k * step + salt) % len];
+            h.insert(i, j);
+        }
+        edges.clear();
+        h
+    };
+    let cycle_edges = |l: usize, r0: usize, c0: usize| -> Vec<(usize, usize)> { (0..l).flat_map(|i| [(r0 + i, c0 + i), (r0 + i, c0 + (i + 1) % l)]).collect() };
+    let ls: Vec<usize> = if thorough { vec![33, 63, 64, 65, 100, 129, 257] } else { vec![33, 64, 65, 130] };
+    for &l in &ls {
+        out.push((format!("cycle:{}", l), build(l, l, cycle_edges(l, 0, 0), l)));
+        // with a chord: row 0 also joins the column opposite
+        let mut e = cycle_edges(l, 0, 0);
+        e.push((0, l / 2));
+        out.push((format!("cycle-with-chord:{}", l), build(l, l, e, l + 1)));
+        // two components of different girth, and an isolated row and column
+        let mut e = cycle_edges(l, 0, 0);
+        e.extend(cycle_edges(3, l, l));
+        out.push((format!("two-cycles:{}+3", l), build(l + 4, l + 4, e, l + 2)));
+        // path: row i joins columns i and i+1 (a forest)
+        let e: Vec<(usize, usize)> = (0..l).flat_map(|i| [(i, i), (i, i + 1)]).collect();
+        out.push((format!("path:{}", l), build(l, l + 1, e, l + 3)));
+        // hub: row 0 joins every column, rows 1..4 close cycles far apart
+        let mut e: Vec<(usize, usize)> = (0..l).map(|j| (0, j)).collect();
+        e.extend([(1, 0), (1, l - 1), (2, l / 2), (2, l / 2 + 1), (3, 1), (4, 2), (4, 3), (4, l - 2)]);
+        out.push((format!("hub:{}", l), build(5, l, e, l + 4)));
+        // tall: the transpose of the hub (more rows than columns)
+        let mut e: Vec<(usize, usize)> = (0..l).map(|i| (i, 0)).collect();
+        e.extend([(0, 1), (l - 1, 1), (l / 2, 2), (l / 2 + 1, 2), (1, 3)]);
+        out.push((format!("tall-hub:{}", l), build(l, 4, e, l + 5)));
+    }
+    out
+}
+
+fn gcd(a: usize, b: usize) -> usize {
+    if b == 0 {
+        a
+    } else {
+        gcd(b, a % b)
+    }
+}
+
+fn check_large(name: &str, h: &SparseMatrix, acc: &mut Acc) {
+    let g = RefGraph::from_sparse(h);
+    let girth = g.girth();
+    let mut bounds = BOUNDS.to_vec();
+    if let Some(x) = girth {
+        bounds.extend([x.saturating_sub(2), x - 1, x, x + 1, x + 2]);
+    }
+    bounds.extend([64, 66, 128, 130, 200, 258, 260, 514, 516]);
+    bounds.sort_unstable();
+    bounds.dedup();
+    check_graph_h(format!("girth:large:{}", name), json!({"kind": "large", "name": name}), &g, h, &bounds, name, acc)
+}
+
 fn replay_element(v: &Value, acc: &mut Acc) {
+    if v["kind"] == "large" {
+        for (n, h) in large_graphs(true).into_iter().chain(large_graphs(false)) {
+            if Some(n.as_str()) == v["name"].as_str() {
+                check_large(&n, &h, acc);
+                return;
+            }
+        }
+        machinery("unknown large graph in replay");
+    }
     let n = v["n"].as_u64().unwrap() as usize;
     let rows: Vec<u64> = v["rows"].as_array().unwrap().iter().map(|x| x.as_u64().unwrap()).collect();
     check_graph(&Small { r: rows.len(), n, rows }, "replay", acc)
@@ -210,6 +293,9 @@ pub fn run(run: &Run) -> i32 {
         }
         let a = par_items(&fam, |m, a| check_graph(m, "family", a));
         acc = acc.merge(a);
+        let large = large_graphs(run.thorough());
+        let a = par_items(&large, |(n, h), a| check_large(n, h, a));
+        acc = acc.merge(a);
         // every 5x5 supergraph of a fixed cycle through Col(0) / Row(0): all labellings of the
         // remaining entries (side cycles on the arms, chords, pendant parts in every combination)
         let skeletons: Vec<Vec<(usize, usize)>> = vec![
@@ -236,7 +322,7 @@ pub fn run(run: &Run) -> i32 {
         run,
         acc,
         Coverage {
-            rule: "every binary matrix of every listed shape (all masks) x every row and column root x bounds {0..10,12,16,MAX}; families: 2L-cycle with a pendant path of 1..8 edges at every attachment point (L=2..6), theta graphs (two cycles sharing a path), complete bipartite minus a matching up to 12x12; every 5x5 supergraph of a fixed 6-cycle / 8-cycle through node 0 (all settings of the first 17 (thorough: all) free entries). Reference: BFS distances; local girth = min over incident edges e of 1 + dist in G-e. Non-trivial = graph contains a cycle; forests and graphs with a cycle-free node attached to a cyclic component are counted separately.".into(),
+            rule: "every binary matrix of every listed shape (all masks) x every row and column root x bounds {0..10,12,16,MAX}; families: 2L-cycle with a pendant path of 1..8 edges at every attachment point (L=2..6), theta graphs (two cycles sharing a path), complete bipartite minus a matching up to 12x12; large graphs (2L-cycles for L = 33..130 (257), with a chord, two components, paths, a hub row / hub column of degree L) with every root and bounds around their girth; every 5x5 supergraph of a fixed 6-cycle / 8-cycle through node 0 (all settings of the first 17 (thorough: all) free entries). Reference: BFS distances; local girth = min over incident edges e of 1 + dist in G-e. Non-trivial = graph contains a cycle; forests and graphs with a cycle-free node attached to a cyclic component are counted separately.".into(),
             exhaustive: true,
             extra: serde_json::Map::new(),
             graph: None,
